@@ -29,18 +29,22 @@ func (a Arch) MarshalControl() (string, error) {
 }
 
 func (a Arch) String() string {
-	/* ABI-OS-CPU -- gnu-linux-amd64 */
-	els := []string{}
-	if a.ABI != "any" && a.ABI != "all" && a.ABI != "gnu" && a.ABI != "" {
-		els = append(els, a.ABI)
+	/* ABI-OS-CPU -- gnu-linux-amd64. The short forms are only used where
+	 * ParseArch reads them back as the same triple. */
+	if a == (Arch{}) {
+		return ""
 	}
-
-	if a.OS != "any" && a.OS != "all" && a.OS != "linux" {
-		els = append(els, a.OS)
+	short := !strings.Contains(a.CPU, "-")
+	switch {
+	case a.ABI == a.OS && a.OS == a.CPU && (a.CPU == "any" || a.CPU == "all"):
+		return a.CPU
+	case short && a.ABI == "gnu" && a.OS == "linux" && a.CPU != "any" && a.CPU != "all" && a.CPU != "":
+		return a.CPU
+	case short && a.ABI == "gnu" && a.OS != "any" && a.CPU != "any",
+		short && a.ABI == "any" && (a.OS == "any" || a.CPU == "any"):
+		return a.OS + "-" + a.CPU
 	}
-
-	els = append(els, a.CPU)
-	return strings.Join(els, "-")
+	return a.ABI + "-" + a.OS + "-" + a.CPU
 }
 
 func (set ArchSet) String() string {
